@@ -415,6 +415,70 @@ pub fn run_receiver(events: &[TracingEvent], filter: Option<&HFilter>, mode: Mod
     TunnelRun { calls, accepted: rejected == 0 && !panicked, rejected, panicked, enabled_queries: rec.enabled_queries() }
 }
 
+/// As [`run_receiver`], but the receiver is restored from persisted metadata that maps every call-site
+/// id of the stream to *other* data (what an earlier build of the guest left behind: another level,
+/// target and name under the same id).  The stream announces every call site before using it, so the
+/// host must observe exactly what it observes with a fresh receiver.
+pub fn run_receiver_stale(events: &[TracingEvent], filter: Option<&HFilter>, mode: Mode) -> TunnelRun {
+    let mut stale: std::collections::HashMap<u64, CallSiteData> = std::collections::HashMap::new();
+    for e in events {
+        if let TracingEvent::NewCallSite { id, data } = e {
+            let mut old = data.clone();
+            old.level = match old.level {
+                TracingLevel::Error | TracingLevel::Warn => TracingLevel::Trace,
+                _ => TracingLevel::Error,
+            };
+            old.target = format!("{}::previous_build", old.target).into();
+            old.name = format!("{}_old", old.name).into();
+            stale.insert(*id, old);
+        }
+    }
+    let text = serde_json::to_string(&stale).expect("serialize stale metadata");
+    let rec = Rec::new(filter, mode);
+    let dispatch = Dispatch::new(rec.clone());
+    let mut rejected = 0;
+    let mut panicked = false;
+    let calls = tracing::dispatcher::with_default(&dispatch, || {
+        let metadata: tracing_tunnel::PersistedMetadata = serde_json::from_str(&text).expect("deserialize stale metadata");
+        let mut receiver = TracingEventReceiver::new(metadata, Default::default(), Default::default());
+        // registrations of the stale call sites belong to the restore
+        let mark = rec.mark();
+        for e in events {
+            match catch_unwind(AssertUnwindSafe(|| receiver.try_receive(e.clone()))) {
+                Ok(Ok(())) => {}
+                Ok(Err(_)) => rejected += 1,
+                Err(_) => {
+                    panicked = true;
+                    break;
+                }
+            }
+        }
+        let calls = rec.since(mark);
+        rec.stop();
+        if panicked {
+            std::mem::forget(receiver);
+        } else {
+            drop(receiver);
+        }
+        calls
+    });
+    drop(dispatch);
+    TunnelRun { calls, accepted: rejected == 0 && !panicked, rejected, panicked, enabled_queries: rec.enabled_queries() }
+}
+
+/// The run handed to the judge: the fresh-receiver run, unless the run from stale metadata made other
+/// host calls (registrations aside: the arena is process-global) or accepted other events.
+pub fn pick_tunnel_run(sink: &mut Sink, fresh: TunnelRun, stale: TunnelRun) -> TunnelRun {
+    let strip = |r: &TunnelRun| chcalls(&r.calls.iter().filter(|c| !matches!(c, Call::Register(..))).cloned().collect::<Vec<_>>()).0;
+    if strip(&fresh) == strip(&stale) && fresh.accepted == stale.accepted && fresh.panicked == stale.panicked {
+        sink.bump("stale-metadata-restore:same-host-calls");
+        fresh
+    } else {
+        sink.bump("stale-metadata-restore:DIFFERENT-host-calls");
+        stale
+    }
+}
+
 // ---- Registry + CaptureLayer -------------------------------------------------------------------
 
 /// A global metadata filter in a `Registry` stack (what `LevelFilter` / `FilterFn` layers are).
@@ -655,6 +719,7 @@ fn prog_case(sink: &mut Sink, idx: u64, kind: &str, prog: &Prog) {
     let sent = run_sender(prog, &sites);
     let wire = through_json(&sent.events);
     let tunnel = run_receiver(&wire.events, None, Mode::Always);
+    let tunnel = pick_tunnel_run(sink, tunnel, run_receiver_stale(&wire.events, None, Mode::Always));
     let snap_n = snap_native(prog, &sites, None);
     let snap_t = snap_tunnel(&wire.events, None);
     let snap_eq = snap_n == snap_t;
